@@ -9,6 +9,8 @@ import (
 	"sort"
 	"strings"
 
+	"github.com/yaricom/goNEAT/v4/neat"
+	"github.com/yaricom/goNEAT/v4/neat/genetics"
 	neatmath "github.com/yaricom/goNEAT/v4/neat/math"
 	"github.com/yaricom/goNEAT/v4/neat/network"
 )
@@ -380,17 +382,12 @@ func c12Analyse(n c12Net) c12FF {
 			ff.why = "neuron without incoming link"
 			return ff
 		}
-		seen := map[int]bool{}
 		for _, l := range nd.In {
 			if l.TD {
 				ff.why = "time-delayed link"
 				return ff
 			}
-			if seen[l.Src] {
-				ff.why = "parallel links"
-				return ff
-			}
-			seen[l.Src] = true
+			// several links on one ordered pair of nodes are inside the quantifier: their contributions add up
 			indeg[i]++
 			succ[l.Src] = append(succ[l.Src], i)
 		}
@@ -910,7 +907,7 @@ func c12Boundary(rng *rand.Rand) []c12Input {
 		n.Nodes = append(n.Nodes, c12Node{Role: 0, Act: 4, In: []c12Link{}}, c12Node{Role: 0, Act: 4, In: []c12Link{{Src: p, W: 0.7}}})
 		n.Nodes[n.Outputs[0]].In = append(n.Nodes[n.Outputs[0]].In, c12Link{Src: p + 1, W: -0.6})
 		add("unreachable-neuron", n, c12StandardRuns(rng, n, 4, 1))
-		// a link into a sensor, parallel links, a time-delayed link
+		// a link into a sensor, a time-delayed link (outside the quantifier); parallel links (inside: judged by the oracle)
 		n = base()
 		n.Nodes[n.Inputs[0]].In = append(n.Nodes[n.Inputs[0]].In, c12Link{Src: n.Outputs[0], W: 0.5}, c12Link{Src: n.Inputs[1], W: 0.25})
 		add("link-into-sensor", n, c12StandardRuns(rng, n, 4, 1))
@@ -939,6 +936,125 @@ func c12Boundary(rng *rand.Rand) []c12Input {
 	return out
 }
 
+// c12ParallelLinks: two links on one ordered pair of nodes. Input(1) -> Output(2, linear) by links of weights 2 and 3,
+// x = [1]: the one-pass topological value is 2*1 + 3*1 = 5 (exact in binary64 whatever the order of the operations).
+// The network is built directly and through Genesis of a genome with two genes on the pair that differ in their
+// recurrence flag (the only way the mutators admit a second gene on a pair); the same through a hidden neuron, where
+// the pair is hidden -> output. All four evaluation routes must return 5.
+// c12ParallelInput is the parallel-links network as a replayable input (the genome-built networks are the same
+// networks; replay judges the four routes through c12One)
+func c12ParallelInput(hidden bool, family string) c12Input {
+	n := c12Net{Nodes: []c12Node{{Role: 1, Act: 17, In: []c12Link{}},
+		{Role: 2, Act: 14, In: []c12Link{{Src: 0, W: 2}, {Src: 0, W: 3}}}}, Inputs: []int{0}, Outputs: []int{1}}
+	if hidden {
+		n = c12Net{Nodes: []c12Node{{Role: 1, Act: 17, In: []c12Link{}},
+			{Role: 0, Act: 14, In: []c12Link{{Src: 0, W: 1}}},
+			{Role: 2, Act: 14, In: []c12Link{{Src: 1, W: 2}, {Src: 1, W: 3}}}}, Inputs: []int{0}, Outputs: []int{2}}
+	}
+	load := c12Op{Kind: c12Load, X: []float64{1}}
+	return c12Input{Net: n, Family: family, Runs: []c12Run{
+		{Solver: 0, Ops: []c12Op{load, {Kind: c12Forward, K: 2}}},
+		{Solver: 1, Ops: []c12Op{load, {Kind: c12Forward, K: 2}}},
+		{Solver: 1, Ops: []c12Op{load, {Kind: c12Relax, K: 1}, {Kind: c12Relax, K: 1}}},
+		{Solver: 1, Ops: []c12Op{load, {Kind: c12Recursive}}}}}
+}
+
+func c12ParallelLinks(r *Run) {
+	quiet()
+	direct := func(hidden bool) func() (*network.Network, error) {
+		return func() (*network.Network, error) {
+			net, _ := c12Build(c12ParallelInput(hidden, "").Net)
+			return net, nil
+		}
+	}
+	genome := func(hidden bool) func() (*network.Network, error) {
+		return func() (*network.Network, error) {
+			in := network.NewNNode(1, network.InputNeuron)
+			out := network.NewNNode(2, network.OutputNeuron)
+			out.ActivationType = neatmath.LinearActivation
+			tr := neat.NewTrait()
+			tr.Id = 1
+			nodes := []*network.NNode{in, out}
+			genes := []*genetics.Gene{genetics.NewGene(2, in, out, false, 1, 0), genetics.NewGene(3, in, out, true, 2, 0)}
+			if hidden {
+				hid := network.NewNNode(3, network.HiddenNeuron)
+				hid.ActivationType = neatmath.LinearActivation
+				nodes = []*network.NNode{in, out, hid}
+				genes = []*genetics.Gene{genetics.NewGene(1, in, hid, false, 1, 0),
+					genetics.NewGene(2, hid, out, false, 2, 0), genetics.NewGene(3, hid, out, true, 3, 0)}
+			}
+			return genetics.NewGenome(1, []*neat.Trait{tr}, nodes, genes).Genesis(1)
+		}
+	}
+	type route struct {
+		name string
+		fast bool
+		run  func(s network.Solver) error
+	}
+	routes := []route{
+		{"Network.ForwardSteps", false, func(s network.Solver) error { _, e := s.ForwardSteps(2); return e }},
+		{"fast ForwardSteps", true, func(s network.Solver) error { _, e := s.ForwardSteps(2); return e }},
+		{"fast Relax", true, func(s network.Solver) error {
+			for i := 0; i < 2; i++ {
+				if _, e := s.Relax(1, 0); e != nil {
+					return e
+				}
+			}
+			return nil
+		}},
+		{"fast RecursiveSteps", true, func(s network.Solver) error { _, e := s.RecursiveSteps(); return e }},
+	}
+	builds := []struct {
+		name  string
+		build func() (*network.Network, error)
+	}{
+		{"direct", direct(false)}, {"direct-through-hidden", direct(true)},
+		{"genome", genome(false)}, {"genome-through-hidden", genome(true)},
+	}
+	const want = 5.0
+	for _, b := range builds {
+		got := map[string]string{}
+		bad := false
+		for _, rt := range routes {
+			net, err := b.build()
+			if err != nil || net == nil {
+				got[rt.name] = fmt.Sprint("build failed: ", err)
+				bad = true
+				continue
+			}
+			var s network.Solver = net
+			if rt.fast {
+				if s, err = net.FastNetworkSolver(); err != nil {
+					got[rt.name] = fmt.Sprint("FastNetworkSolver failed: ", err)
+					bad = true
+					continue
+				}
+			}
+			if err = s.LoadSensors([]float64{1}); err == nil {
+				err = rt.run(s)
+			}
+			outs := s.ReadOutputs()
+			if err != nil || len(outs) != 1 {
+				got[rt.name] = fmt.Sprint("failed: ", err, " outputs ", outs)
+				bad = true
+				continue
+			}
+			got[rt.name] = fmt.Sprint(outs[0])
+			if outs[0] != want {
+				bad = true
+			}
+		}
+		r.Hist("parallel-links-oracle", b.name)
+		if bad {
+			r.Fail(Failure{Key: "fast-recursive-parallel-links",
+				What:     "two links on one ordered pair of nodes (" + b.name + "): an evaluation route does not return the topological value",
+				Input:    c12ParallelInput(strings.HasSuffix(b.name, "hidden"), "parallel-links-oracle-"+b.name),
+				Observed: got,
+				Required: map[string]interface{}{"every route": want}})
+		}
+	}
+}
+
 func runC12(r *Run) error {
 	r.Res.Rule = "random layered DAGs (1-3 inputs, 0-3 bias nodes, 0-4 hidden layers of 1-3, 1-3 outputs, skip links, shuffled node order in half of them), " +
 		"every activation type; per net up to 3 input vectors through Network.ForwardSteps/RecursiveSteps and the fast solver's ForwardSteps/RecursiveSteps/Relax with k >= depth; " +
@@ -946,6 +1062,7 @@ func runC12(r *Run) error {
 		"non-trivial = feed-forward with depth >= 2; distinct by network"
 	depthQueryHistories(r, "C12")
 	twoSolversOneNetwork(r, "C12")
+	c12ParallelLinks(r)
 	r.Note("harness built with the default GOAMD64 (v1): the Go compiler emits no fused multiply-add on amd64")
 	var inputs []c12Input
 	inputs = append(inputs, c12Boundary(r.Rng)...)
